@@ -44,7 +44,7 @@ func init() {
 // ---- abstract case -------------------------------------------------------------
 
 type Writer struct {
-	T    string // basic | apikey | bearer
+	T    string // basic | apikey | bearer | absent (a nil entry of a Compose list)
 	Name string
 	In   string
 	U, P string
@@ -165,6 +165,7 @@ func stepFrom(d M) Step {
 
 func mkWriter(ws []Writer) runtime.ClientAuthInfoWriter {
 	var out []runtime.ClientAuthInfoWriter
+	composed := false
 	for _, w := range ws {
 		switch w.T {
 		case "basic":
@@ -173,12 +174,15 @@ func mkWriter(ws []Writer) runtime.ClientAuthInfoWriter {
 			out = append(out, client.APIKeyAuth(w.Name, w.In, w.P))
 		case "bearer":
 			out = append(out, client.BearerToken(w.P))
+		case "absent": // a nil entry of a Compose list
+			out = append(out, nil)
+			composed = true
 		}
 	}
-	switch len(out) {
-	case 0:
+	switch {
+	case len(out) == 0:
 		return nil
-	case 1:
+	case len(out) == 1 && !composed:
 		return out[0]
 	}
 	return client.Compose(out...)
